@@ -1,22 +1,72 @@
 /-
-  HotXL.Model.Fn.DateTime — builtin functions of this family (filled in as the family is modelled).
-  `table` maps a registered function name to its model; a registered name with no entry
-  here is reported by the evaluator as `Value.other "unmodelled-builtin"`.
+  HotXL.Model.Fn.DateTime — model of hotxlfp/formulas/dateandtime.py (DATE, TIME, DATEVALUE,
+  TIMEVALUE, YEAR … SECOND, DAYS, DATEDIF, EDATE, WEEKDAY) and of `utils.parse_date` /
+  `utils.serialize_date` on arbitrary values.  TODAY and NOW read the clock: they are not modelled.
 
-  Modelled so far (property C13): `DATEVALUE`, `DAYS` of hotxlfp/formulas/dateandtime.py, through
-  `utils.parse_date` / `utils.serialize_date` on any value.
+  A datetime is `Value.date us`: MICROSECONDS since 1900-01-01T00:00.  Its calendar components are
+  read through `HotXL.Calendar` (CPython's `_ord2ymd`): day index = ⌊us / 86400000000⌋,
+  ordinal = ordinal(1900-01-01) + day index.
+
+  The magic numbers of the Python functions (the 1900 offset of DATE, EDATE's own 12-entry
+  month-length list and leap rule, the year limits, WEEKDAY's numbering constants, DATEDIF's unit
+  names and borrow terms) and their comparison operators are read from `HotXL.Generated.DateTime`
+  (integer literals / comparison operators of each function in source order).
+
+  Not modelled (the model answers `Value.other …`, "no opinion"): text that is neither a decimal
+  number nor ISO-8601 `YYYY-MM-DD[(T| )HH:MM[:SS]]` (dateutil's other formats).
+
+  `parseDate`, `serializeDate`, `DATEVALUE`, `DAYS` are also what property C13's theorems are about
+  (HotXL/Props/C13.lean): keep their names and definitions.
 -/
 import HotXL.Model.Fn.Common
+import HotXL.Model.Calendar
+import HotXL.Model.Dates
+import HotXL.Generated.DateTime
 
 namespace HotXL.Fn.DateTime
-open HotXL HotXL.Ops
+open HotXL HotXL.Ops HotXL.Fn
 
-open HotXL.Fn
+/-! ### datetimes as microsecond counts -/
+
+/-- ordinal of 1900-01-01, the origin of `Value.date` -/
+def epochOrd : Int := Calendar.ordinalOfYMD 1900 1 1
+
+def usPerDay : Int := Dates.usPerDay
+
+/-- ⌊us / day⌋ (Lean's `/` on `Int` with a positive divisor is the floor, as Python's `//`) -/
+def dayIndex (us : Int) : Int := us / usPerDay
+/-- microseconds since midnight -/
+def timeOfDay (us : Int) : Int := us % usPerDay
+/-- `date.toordinal()` -/
+def ordinalOf (us : Int) : Int := epochOrd + dayIndex us
+
+def yearOf (us : Int) : Int := (Calendar.ymdOfOrdinal (ordinalOf us)).1
+def monthOf (us : Int) : Int := ((Calendar.ymdOfOrdinal (ordinalOf us)).2.1 : Nat)
+def dayOf (us : Int) : Int := (Calendar.ymdOfOrdinal (ordinalOf us)).2.2
+def hourOf (us : Int) : Int := timeOfDay us / 3600000000
+def minuteOf (us : Int) : Int := timeOfDay us / 60000000 % 60
+def secondOf (us : Int) : Int := timeOfDay us / 1000000 % 60
+
+/-- `datetime.datetime(y, m, d, h, mi, s)`; `none` = ValueError (year outside 1..9999, month
+    outside 1..12, day outside the month, hour/minute/second out of range) -/
+def mkDateTime? (y m d h mi s : Int) : Option Int :=
+  if 1 ≤ m && Calendar.validYMD y m.toNat d && 0 ≤ h && h < 24 && 0 ≤ mi && mi < 60 && 0 ≤ s && s < 60 then
+    some ((Calendar.ordinalOfYMD y m.toNat d - epochOrd) * usPerDay + ((h * 60 + mi) * 60 + s) * 1000000)
+  else none
+
+/-- a Python comparison of two integers, named by its `ast` class -/
+def cmpI (name : String) (a b : Int) : Bool :=
+  match name with
+  | "Lt" => a < b | "LtE" => a ≤ b | "Gt" => a > b | "GtE" => a ≥ b
+  | "Eq" => a = b | "NotEq" => a ≠ b | _ => false
+
+/-! ### `utils.parse_date`, `utils.serialize_date` -/
 
 /-- `utils.parse_date(v)`: `.ok (.date us)`, `.ok` of an error value (`#NUM!` below 0, `#VALUE!` for
     what is neither a number nor a date), `.error` = it RAISED (OverflowError beyond year 9999).
-    Text: `to_number` first, then ISO-8601 dates; for any other text `dateutil` decides
-    (library behaviour, `.other`: the model has no opinion). -/
+    Numbers (logicals included: `bool` is an `int`) are serial numbers; text: `to_number` first, then
+    ISO-8601 dates; for any other text `dateutil` decides (library behaviour, `.other`: the model has
+    no opinion). -/
 def parseDate : Value → Except Err Value
   | .err e => .ok (.err e)
   | .date us => .ok (.date us)
@@ -38,10 +88,112 @@ def serializeDate (v : Value) : Except Err Value :=
   | .ok (.other t) => .ok (.other t)
   | .ok _ => .ok (.err .value)
 
+/-- outcome of `parse_date(v)`, classified -/
+inductive PD where
+  | date (us : Int)
+  | err (e : Err)        -- an XLError is RETURNED
+  | raised               -- a Python exception (OverflowError beyond year 9999)
+  | unmodelled           -- text handed to dateutil that is not plain ISO-8601
+  deriving Repr, DecidableEq
+
+def pdOf (v : Value) : PD :=
+  match parseDate v with
+  | .error _ => .raised
+  | .ok (.date us) => .date us
+  | .ok (.err e) => .err e
+  | .ok _ => .unmodelled
+
+def unmodelled : Except Err Value := .ok (.other "dateutil-text")
+
+def vInt (i : Int) : Value := .num (.int i)
+
+/-! ### DATE, TIME -/
+
+def dC (i : Nat) : Int := Generated.dateInts.getD i 0
+def tC (i : Nat) : Int := Generated.timeInts.getD i 0
+
+/-- `operator.index`: what `datetime.datetime(...)` accepts as a field (ints, logicals) -/
+def numIndex? : Num → Option Int
+  | .int i => some i
+  | .flt _ => none
+
+def rawIndex? : Value → Option Int
+  | .num (.int i) => some i
+  | .bool b => some (if b then 1 else 0)
+  | _ => none
+
+/-- DATE(year, month, day): `if year < 1900: year += 1900`, then `datetime.datetime(y, m, d)` -/
+def DATE : Builtin
+  | [y, m, d] =>
+    match parseNumber y, parseNumber m, parseNumber d with
+    | .ok yn, .ok mn, .ok dn =>
+      -- `year < 1900` is evaluated on ints and floats alike; a float field is a TypeError afterwards
+      match numIndex? yn, numIndex? mn, numIndex? dn with
+      | some yi, some mi, some di =>
+        let yi := if cmpI (Generated.dateCompares.getD 0 "") yi (dC 0) then yi + dC 1 else yi
+        match mkDateTime? yi mi di 0 0 0 with
+        | some us => .ok (.date us)
+        | none => .error .error
+      | _, _, _ => .error .error
+    | _, _, _ => .ok (.err .value)
+  | _ => .error .error
+
+/-- TIME(hour, minute, second): the three arguments are validated through `parse_number`, but the
+    hour handed to `datetime.datetime(1900, 1, 1, hour, minute, second)` is the RAW argument
+    (numeric text is a TypeError there) -/
+def TIME : Builtin
+  | [h, mi, s] =>
+    match parseNumber h, parseNumber mi, parseNumber s with
+    | .ok _, .ok mn, .ok sn =>
+      match rawIndex? h, numIndex? mn, numIndex? sn with
+      | some hi, some mi, some si =>
+        match mkDateTime? (tC 0) (tC 1) (tC 2) hi mi si with
+        | some us => .ok (.date us)
+        | none => .error .error
+      | _, _, _ => .error .error
+    | _, _, _ => .ok (.err .value)
+  | _ => .error .error
+
+/-! ### DATEVALUE, TIMEVALUE -/
+
 /-- `DATEVALUE(date) = utils.serialize_date(date)` -/
 def DATEVALUE : Builtin
   | [v] => serializeDate v
   | _ => .error .error
+
+/-- TIMEVALUE(time) = `serialize_date(combine(date_1900, parse_date(time).time())) - 1`
+    (an error value has no `.time()`: AttributeError) -/
+def TIMEVALUE : Builtin
+  | [v] =>
+    match pdOf v with
+    | .date us =>
+      let base := (Dates.ordOf Generated.date1900 - epochOrd) * usPerDay
+      .ok (.num (numSub (Dates.serialize (base + timeOfDay us)) (.int (Generated.timevalueInts.getD 0 0))))
+    | .err _ => .error .error
+    | .raised => .error .error
+    | .unmodelled => unmodelled
+  | _ => .error .error
+
+/-! ### YEAR … SECOND -/
+
+/-- `parse_date`, an error returned as it is, else the component -/
+def component (f : Int → Int) : Builtin
+  | [v] =>
+    match pdOf v with
+    | .date us => .ok (vInt (f us))
+    | .err e => .ok (.err e)
+    | .raised => .error .error
+    | .unmodelled => unmodelled
+  | _ => .error .error
+
+def YEAR : Builtin := component yearOf
+def MONTH : Builtin := component monthOf
+def DAY : Builtin := component dayOf
+def HOUR : Builtin := component hourOf
+def MINUTE : Builtin := component minuteOf
+def SECOND : Builtin := component secondOf
+
+/-! ### DAYS -/
 
 /-- `DAYS(end_date, start_date)`: both through `parse_date`; `#VALUE!` if either is an error;
     else `serialize_date(end) - serialize_date(start)` -/
@@ -60,6 +212,195 @@ def DAYS : Builtin
         | _, _ => .ok (.err .value)
   | _ => .error .error
 
-def table : List (String × Builtin) := [("DATEVALUE", DATEVALUE), ("DAYS", DAYS)]
+/-! ### DATEDIF -/
+
+def fC (i : Nat) : Int := Generated.datedifInts.getD i 0
+def fK (i : Nat) : String := Generated.datedifCompares.getD i ""
+def fS (i : Nat) : List Char := (Generated.datedifStrs.getD i "").toList
+
+/-- Python `int(x)` of a number: truncation toward zero -/
+def numTrunc : Num → Int
+  | .int i => i
+  | .flt q => Int.tdiv q.num q.den
+
+/-- `str.lower()` on the ASCII letters (no other character lowers to an ASCII letter that occurs
+    in a unit name) -/
+def asciiLower (s : List Char) : List Char :=
+  s.map (fun c => if 65 ≤ c.toNat && c.toNat ≤ 90 then Char.ofNat (c.toNat + 32) else c)
+
+/-- the unit arithmetic of DATEDIF on two datetimes `a` (start), `b` (end), unit already lowered -/
+def datedifCore (a b : Int) (unit : List Char) : Except Err Value :=
+  if cmpI (fK 1) a b then .ok (vInt (fC 0)) else
+  if cmpI (fK 2) a b then
+    let (sy, sm, sd) := (yearOf a, monthOf a, dayOf a)
+    let (ey, em, ed) := (yearOf b, monthOf b, dayOf b)
+    if unit = fS 0 then
+      .ok (vInt (ey - sy - (if cmpI (fK 4) em sm || (cmpI (fK 5) em sm && cmpI (fK 6) ed sd) then fC 1 else fC 2)))
+    else if unit = fS 1 then
+      .ok (vInt ((ey - sy) * fC 3 + em - sm - (if cmpI (fK 8) ed sd then fC 4 else fC 5)))
+    else if unit = fS 2 then
+      .ok (vInt (numTrunc (numSub (Dates.serialize b) (Dates.serialize a))))
+    else if unit = fS 3 then
+      if cmpI (fK 11) ed sd then .ok (vInt (ed - sd))
+      else
+        let prev := em - fC 6
+        let prevDays :=
+          if [fC 8, fC 9, fC 10, fC 11].contains prev then fC 7
+          else if cmpI (fK 13) prev (fC 13) then fC 12
+          else if Calendar.isLeap ey then fC 14 else fC 15
+        .ok (vInt (prevDays - sd + ed))
+    else if unit = fS 4 then
+      let md := (ey - sy) * fC 16 + em - sm
+      let md := if cmpI (fK 15) ed sd then md - fC 17 else md
+      .ok (vInt (md % fC 18))
+    else if unit = fS 5 then
+      match mkDateTime? ey sm sd 0 0 0 with
+      | none => .error .error
+      | some t =>
+        if cmpI (fK 17) t b then
+          match mkDateTime? (ey - fC 19) sm sd 0 0 0 with
+          | none => .error .error
+          | some t' => .ok (vInt (numTrunc (numSub (Dates.serialize b) (Dates.serialize t'))))
+        else .ok (vInt (numTrunc (numSub (Dates.serialize b) (Dates.serialize t))))
+    else .ok (.err .num)
+  else .ok (.err .num)
+
+/-- DATEDIF(start_date, end_date, unit) -/
+def DATEDIF : Builtin
+  | [s, e, u] =>
+    match pdOf s with
+    | .raised => .error .error
+    | .unmodelled => unmodelled
+    | ps =>
+      match pdOf e with
+      | .raised => .error .error
+      | .unmodelled => unmodelled
+      | pe =>
+        match ps, pe with
+        | .date a, .date b =>
+          (match u with
+           | .str unit => datedifCore a b (asciiLower unit)
+           | _ => .ok (.err .name))
+        | _, _ => .ok (.err .num)
+  | _ => .error .error
+
+/-! ### EDATE -/
+
+def eC (i : Nat) : Int := Generated.edateInts.getD i 0
+def eK (i : Nat) : String := Generated.edateCompares.getD i ""
+
+/-- `int(month)`: ints, floats (truncated), logicals, integer text; `none` = TypeError / ValueError -/
+def pyIntOf? : Value → Option Int
+  | .num n => some (numTrunc n)
+  | .bool b => some (if b then 1 else 0)
+  | .str s => PyNum.pyInt? s
+  | _ => none
+
+/-- Python list indexing `l[i]` (negative indices count from the end); `none` = IndexError -/
+def pyListGet? (l : List Int) (i : Int) : Option Int :=
+  if 0 ≤ i then l[i.toNat]? else if -(l.length : Int) ≤ i then l[((l.length : Int) + i).toNat]? else none
+
+/-- EDATE's first leap rule (default-date branch):
+    `(year % 4 == 0 and year % 100 != 0) or (year % 400 == 0)` -/
+def edateLeapA (year : Int) : Bool :=
+  (cmpI (eK 5) (year % eC 14) (eC 15) && cmpI (eK 6) (year % eC 16) (eC 17)) || cmpI (eK 7) (year % eC 18) (eC 19)
+
+/-- EDATE's second leap rule (inside the 12-entry list) -/
+def edateLeapB (year : Int) : Bool :=
+  (cmpI (eK 9) (year % eC 29) (eC 30) && cmpI (eK 10) (year % eC 31) (eC 32)) || cmpI (eK 11) (year % eC 33) (eC 34)
+
+/-- EDATE's own month-length list `[31, 29 if leap else 28, 31, 30, …]` -/
+def edateMonthList (year : Int) : List Int :=
+  [eC 27, if edateLeapB year then eC 28 else eC 35, eC 36, eC 37, eC 38, eC 39, eC 40, eC 41, eC 42, eC 43,
+   eC 44, eC 45]
+
+/-- the month arithmetic of EDATE on a start datetime and `n = int(month)` -/
+def edateCore (dflt : Bool) (us : Int) (n : Int) : Except Err Value :=
+  let year := yearOf us + n / eC 3
+  let month := monthOf us + n % eC 4
+  let ym : Int × Int :=
+    if cmpI (eK 2) month (eC 5) then (year + eC 7, month - eC 6)
+    else if cmpI (eK 3) month (eC 8) then (year - eC 10, month + eC 9)
+    else (year, month)
+  let year := ym.1
+  let month := ym.2
+  let md : Option (Int × Int) :=
+    if dflt then
+      let month := month - eC 11
+      let day :=
+        if cmpI (eK 4) month (eC 12) then (if edateLeapA year then eC 13 else eC 20)
+        else if [eC 21, eC 22, eC 23, eC 24].contains month then eC 25
+        else eC 26
+      some (month, day)
+    else
+      match pyListGet? (edateMonthList year) (month - eC 46) with
+      | some len => some (month, min (dayOf us) len)
+      | none => none
+  match md with
+  | none => .error .error
+  | some (month, day) =>
+    if cmpI (eK 12) year (eC 47) || cmpI (eK 13) year (eC 48) then .ok (.err .num)
+    else match mkDateTime? year month day 0 0 0 with
+      | some us' => .ok (.date us')
+      | none => .error .error
+
+/-- EDATE(start_date, month) -/
+def EDATE : Builtin
+  | [sd, mo] =>
+    let dflt : Bool := match sd with | .blank => true | _ => false
+    let start : PD :=
+      if dflt then
+        (match mkDateTime? (eC 0) (eC 1) (eC 2) 0 0 0 with
+         | some us => .date us
+         | none => .raised)
+      else pdOf sd
+    match start with
+    | .raised => .error .error
+    | .unmodelled => unmodelled
+    | .err e =>
+      (match mo with
+       | .blank => .ok (.err e)
+       | _ => .error .error)       -- `int(month)` fails or the error value has no `.year`
+    | .date us =>
+      match mo with
+      | .blank => .ok (.date us)
+      | _ =>
+        match pyIntOf? mo with
+        | none => .error .error
+        | some n => edateCore dflt us n
+  | _ => .error .error
+
+/-! ### WEEKDAY -/
+
+def wC (i : Nat) : Int := Generated.weekdayInts.getD i 0
+
+/-- Python `return_type == k` for an integer literal `k` -/
+def eqInt (v : Value) (k : Int) : Bool :=
+  match pyNumeric? v with
+  | some q => q = (k : Rat)
+  | none => false
+
+def weekdayCore (d t : Value) : Except Err Value :=
+  match pdOf d with
+  | .date us =>
+    let wd := Calendar.weekday (ordinalOf us)
+    if eqInt t (wC 1) then .ok (vInt wd)
+    else if eqInt t (wC 2) then .ok (vInt (wd + wC 3))
+    else if eqInt t (wC 4) then (if wd = wC 5 then .ok (vInt (wC 6)) else .ok (vInt (wd + wC 7)))
+    else .ok (.err .num)
+  | .err _ => .error .error         -- an error value has no `.weekday()`
+  | .raised => .error .error
+  | .unmodelled => unmodelled
+
+/-- WEEKDAY(date, return_type=1) -/
+def WEEKDAY : Builtin
+  | [d] => weekdayCore d (vInt (wC 0))
+  | [d, t] => weekdayCore d t
+  | _ => .error .error
+
+def table : List (String × Builtin) :=
+  [("DATE", DATE), ("TIME", TIME), ("DATEVALUE", DATEVALUE), ("TIMEVALUE", TIMEVALUE),
+   ("YEAR", YEAR), ("MONTH", MONTH), ("DAY", DAY), ("HOUR", HOUR), ("MINUTE", MINUTE), ("SECOND", SECOND),
+   ("DAYS", DAYS), ("DATEDIF", DATEDIF), ("EDATE", EDATE), ("WEEKDAY", WEEKDAY)]
 
 end HotXL.Fn.DateTime
